@@ -1,4 +1,5 @@
 import RzilVerif.Lemmas.StmtConv
+import RzilVerif.Lemmas.ExprImm
 /-!
   C05 helpers, part 4: one lemma per statement form (non-recursive forms).
 -/
@@ -6,9 +7,10 @@ namespace Rzil
 namespace C05
 
 /-- The well-formedness `WF` of the expression theorem holds for the listed expressions in every
-    IL-side state satisfying the invariant in which the expression has a C value. -/
+    typed state (`SInv`) whose immediate locals hold the state's immediates (`ImmsCur`) and in which the expression
+    has a C value.  (The simulation applies it to the IL-side state seen with the C side's current immediates.) -/
 def WFHyp (ms : MacroSem) (WF : MState → CExpr → Prop) (c : Ctx) (es : List CExpr) : Prop :=
-  ∀ e ∈ es, ∀ σ vC, SInv c σ → evalC ms σ e = .ok vC → WF σ e
+  ∀ e ∈ es, ∀ σ vC, SInv c σ → ImmsCur c σ → evalC ms σ e = .ok vC → WF σ e
 
 theorem WFHyp.mono {ms WF c es es'} (h : WFHyp ms WF c es) (hs : ∀ e ∈ es', e ∈ es) : WFHyp ms WF c es' :=
   fun e he => h e (hs e he)
@@ -18,13 +20,21 @@ variable {ms : MacroSem} {WF : MState → CExpr → Prop} (hE : ExprOK ms WF)
 variable {c : Ctx} {env : CEnv} (henv : env.cfg = Cfg.fixed)
 include hE henv
 
-/-- the expression theorem, applied on the IL-side state for a C-side evaluation -/
+/-- the expression theorem, applied on the IL-side state for a C-side evaluation.  The one-state expression theorem
+    is used in the IL-side state SEEN WITH THE C SIDE'S CURRENT IMMEDIATES (`{ σIL with imm := σC.imm }`: there the
+    local of every immediate letter holds the state's immediate, `himm`); the compiled expression never reads
+    `MState.imm` (`ImmFree.ni_compileExpr`), so its value in `σIL` itself is the same. -/
 theorem expr_sim {σC σIL : MState} {e : CExpr} {ce : CE} {vC : Val}
-    (hag : AgreeOn (readVars e) (readRegs e) σC σIL) (hinv : SInv c σIL) (hwf : WFHyp ms WF c [e])
+    (hag : AgreeOn (readVars e) (readRegs e) (readImms e) σC { σIL with imm := σC.imm }) (hinv : SInv c σIL)
+    (himm : ∀ l ∈ c.imms, lookupS l σIL.locals = some (.bv 32 (BitVec.ofNat 32 (σC.imm l))))
+    (hwf : WFHyp ms WF c [e])
     (hev : evalC ms σC e = .ok vC) (hce : compileExpr env e = .ok ce) :
     Sim ms σIL ce (typeOfC e) vC := by
   have hev' := evalC_congr ms e hag hev
-  exact hE σIL env e ce vC henv (hwf e (by simp) σIL vC hinv hev') hev' hce
+  obtain ⟨vIL, h1, h2, h3⟩ := hE { σIL with imm := σC.imm } env e ce vC henv
+    (hwf e (by simp) _ vC (hinv.withImm _) himm hev') hev' hce
+  rw [ImmFree.evalPure_compileExpr_withImm hce] at h1
+  exact ⟨vIL, h1, h2, h3⟩
 
 theorem decl_correct {st st' : TSt} {t : CT} {n : String} {e : CExpr} {eff : ILEffect}
     {σC σIL σC' : MState} {f : Nat} (hc : c.ok = true)
@@ -41,7 +51,7 @@ theorem decl_correct {st st' : TSt} {t : CT} {n : String} {e : CExpr} {eff : ILE
   simp only [WFStmt, Bool.and_eq_true, beq_iff_eq, bne_iff_ne, ne_eq] at hwf
   rw [convTo_eq, henv] at hcomp
   cases hcomp
-  have hsim := expr_sim hE henv (hinv.rel.agreeOn _ _) hinv.inv hWF hv hce
+  have hsim := expr_sim hE henv (hinv.rel.agreeOn _ _ _) hinv.inv hinv.immVal hWF hv hce
   obtain ⟨x, hcv, _, he, _⟩ := sim_convTo t hsim hwf.2
   rw [hcv] at hv'; cases hv'
   cases hex
@@ -62,7 +72,7 @@ theorem store_correct {st st' : TSt} {w : Nat} {e : CExpr} {eff : ILEffect}
   simp only [WFStmt, bne_iff_ne, ne_eq] at hwf
   rw [henv] at hcomp
   cases hcomp
-  have hsim := expr_sim hE henv (hinv.rel.agreeOn _ _) hinv.inv hWF hv hce
+  have hsim := expr_sim hE henv (hinv.rel.agreeOn _ _ _) hinv.inv hinv.immVal hWF hv hce
   obtain ⟨x, hcv, he⟩ := sim_storeCast w hsim hwf
   rw [hcv] at hv'; cases hv'
   cases hea : lookupS "EA" σC.locals with
@@ -98,14 +108,15 @@ theorem jump_correct {st st' : TSt} {e : CExpr} {eff : ILEffect}
   cases hex
   -- the IL sets the flag first; the target is evaluated in the state with the flag set
   have hinv1 := hinv.setSpecial hc (n := "jump_flag") (by decide) (by decide) (.bool true)
-  have hag : AgreeOn (readVars e) (readRegs e) σC { σIL with locals := setLocal σIL.locals "jump_flag" (.bool true) } := by
+  have hag : AgreeOn (readVars e) (readRegs e) (readImms e) σC
+      { { σIL with locals := setLocal σIL.locals "jump_flag" (.bool true) } with imm := σC.imm } := by
     have r := hinv.rel
-    refine ⟨fun ov _ => ⟨congrFun r.cur ov, congrFun r.new ov, congrFun r.written ov⟩, r.mem, r.imm, r.pktAddr, ?_⟩
+    refine ⟨fun ov _ => ⟨congrFun r.cur ov, congrFun r.new ov, congrFun r.written ov⟩, r.mem, fun _ _ => rfl, r.pktAddr, ?_⟩
     intro n hn w hw
     have : n ≠ "jump_flag" := fun e' => hwf (e' ▸ hn)
     simp only [lookupS_setLocal_ne this]
     exact r.locals _ _ hw
-  have hsim := expr_sim hE henv hag hinv1.inv hWF hv hce
+  have hsim := expr_sim hE henv hag hinv1.inv hinv1.immVal hWF hv hce
   have htarget : ∃ x : BitVec 32, v' = .bv 32 x ∧
       evalPure ms { σIL with locals := setLocal σIL.locals "jump_flag" (.bool true) } []
         (if ce.ty.width != 32 then initACast Cfg.fixed { signed := false, width := 32, group := 1 } ce else ce).il
